@@ -30,6 +30,9 @@ def run(tier, seed, t0):
                         ["--mode", "tlwe", "--N", N, "--k", "1,2,3", "--reps", r, "--seed", seed]))
         jobs.append(Job("optim-extract-N%d" % N, "drv_c14", "optim", "spqlios-fma",
                         ["--mode", "extract", "--N", N, "--k", "1,2,3", "--reps", 4 if thorough else 2, "--seed", seed]))
+    # long runs in one process: every entry point called more often than a 16-bit counter can count
+    jobs.append(Job("optim-lwe-longrun", "drv_c14", "optim", "spqlios-fma", ["--mode", "lwe", "--n", "5", "--reps", 70000, "--seed", seed + 7], timeout=3600))
+    jobs.append(Job("optim-tlwe-longrun", "drv_c14", "optim", "spqlios-fma", ["--mode", "tlwe", "--N", "8", "--k", "1", "--reps", 70000, "--seed", seed + 7], timeout=3600))
     # operands, results and keys far apart in the address space (successive blocks from three distant regions)
     jobs.append(Job("optim-lwe-spread", "drv_c14", "optim", "spqlios-fma", ["--mode", "lwe", "--n", "1,7,8,9,33,500,630,1024", "--reps", max(3, reps // 3), "--seed", seed + 5, "--heapphase", 100]))
     jobs.append(Job("optim-tlwe-spread", "drv_c14", "optim", "spqlios-fma", ["--mode", "tlwe", "--N", "16,64,1024", "--k", "1,2", "--reps", max(3, reps // 3), "--seed", seed + 5, "--heapphase", 100]))
